@@ -36,6 +36,7 @@ type propSpec struct {
 	Bounds      string   `json:"bounds"`
 	Outside     []string `json:"outside,omitempty"`
 	Assumptions []string `json:"assumptions,omitempty"`
+	Pregen      string   `json:"pregen,omitempty"`
 	Quick       tierSpec `json:"quick"`
 	Thorough    tierSpec `json:"thorough"`
 }
@@ -99,6 +100,20 @@ func cmdCheck(args []string) {
 	if _, err := os.Stat("/dev/shm"); err != nil {
 		scratch = filepath.Join(os.TempDir(), fmt.Sprintf("verif-replay-%d", os.Getpid()))
 	}
+	var genFinds []genFinding
+	var genInfo map[string]interface{}
+	if spec.Pregen == "modelgen" && *replayOnly == "" || spec.Pregen == "modelgen" && *replayOnly != "" {
+		var err error
+		hdir, genFinds, genInfo, err = pregenModelgen(*repo, *vdir, scratch+"-gen")
+		defer os.RemoveAll(scratch + "-gen")
+		if err != nil {
+			fatal(err)
+		}
+		allEntries = nil
+		for _, e := range append(append([]entrySpec{}, spec.Quick.Entries...), spec.Thorough.Entries...) {
+			allEntries = append(allEntries, e.Entry)
+		}
+	}
 	rp := &gosym.Replayer{Repo: *repo, HarnessDir: hdir, Scratch: scratch, Entries: dedup(allEntries)}
 	defer rp.Cleanup()
 
@@ -132,6 +147,12 @@ func cmdCheck(args []string) {
 	start := time.Now()
 	p, err := gosym.Load(gosym.LoadOptions{Repo: *repo, HarnessDir: hdir})
 	if err != nil {
+		if be, ok := err.(*gosym.BuildError); ok && spec.Pregen != "" && strings.Contains(be.Error(), "c20gen") {
+			genFinds = append(genFinds, genFinding{"gen:the generated code does not compile", "C20: the generated code does not compile", be.Error()})
+			reportGen(prop, *vdir, genFinds, known)
+			os.RemoveAll(scratch + "-gen")
+			os.Exit(1)
+		}
 		if be, ok := err.(*gosym.BuildError); ok {
 			fmt.Printf("INCONCLUSIVE property=%s: /repo with harness overlays does not type-check:\n%s\n", prop, be.Error())
 			os.Exit(0)
@@ -310,6 +331,10 @@ func cmdCheck(args []string) {
 		}
 	}
 
+	gv, gk := reportGen(prop, *vdir, genFinds, known)
+	violations += gv
+	knownHit = append(knownHit, gk...)
+
 	// evidence
 	complete := A.aborted == 0 && A.incomplete == 0 && !A.budgetHit
 	fnames := make([]string, 0, len(A.cover))
@@ -351,6 +376,9 @@ func cmdCheck(args []string) {
 		"known_findings_hit":            knownHit,
 		"unconfirmed":                   unconfirmed,
 		"rule":                          "one state = one completed path-condition class of a harness entry (all values of the symbolic leaves satisfying it); one transition = one solver-decided decision point",
+	}
+	for k, v := range genInfo {
+		cov[k] = v
 	}
 	if len(A.samples) == 0 {
 		cov["samples"] = []interface{}{map[string]interface{}{"note": "no completed path"}}
@@ -443,4 +471,36 @@ func dedup(s []string) []string {
 func fatal(err error) {
 	fmt.Fprintln(os.Stderr, "gosym:", err)
 	os.Exit(2)
+}
+
+
+func writeJSON(path string, v interface{}) {
+	b, _ := json.MarshalIndent(v, "", " ")
+	os.WriteFile(path, b, 0o644)
+}
+
+// reportGen prints what the generation step found: violations (with a replay file describing how to reproduce) or
+// known findings.
+func reportGen(prop, vdir string, finds []genFinding, known []knownFinding) (violations int, knownHit []string) {
+	for _, g := range finds {
+		var kf *knownFinding
+		for i := range known {
+			if known[i].Property == prop && known[i].Key == g.Key && known[i].Status == "known" {
+				kf = &known[i]
+			}
+		}
+		if kf != nil {
+			knownHit = append(knownHit, g.Key)
+			fmt.Printf("KNOWN-FINDING: property=%s %s [key=%s]\n", prop, kf.What, g.Key)
+			continue
+		}
+		h := sha1.Sum([]byte(g.Key))
+		rpath := filepath.Join(vdir, "replays", prop, fmt.Sprintf("%x.json", h[:6]))
+		os.MkdirAll(filepath.Dir(rpath), 0o755)
+		writeJSON(rpath, map[string]interface{}{"property": prop, "key": g.Key, "msg": g.Msg, "detail": g.Detail,
+			"reproduce": "cd /repo && go run ./cmd/modelgen -extended -p c20gen -o <dir> /verif/harness-c20/corpus.ovsschema (or corpus-enums.ovsschema); compare two runs / go vet the output"})
+		violations++
+		fmt.Printf("VIOLATION property=%s replay=%s\n   key=%q\n   %s\n   %s\n", prop, rpath, g.Key, g.Msg, strings.ReplaceAll(g.Detail, "\n", "\n   "))
+	}
+	return
 }
